@@ -62,6 +62,7 @@ CONSTANTS Node,          \* node ids
           FixD14,        \* TRUE = round.begin resets the end time of the previous round (repaired)
           FixD20,        \* TRUE = a snapshot is labelled with the configuration in force at the commit index (repaired)
           FixD22,        \* TRUE = a stale install-snapshot request does not replace newer state (repaired)
+          FixD23,        \* TRUE = install-snapshot on a log that already agrees with the snapshot leaves the log alone (repaired)
           FixD19,        \* TRUE = a locally taken snapshot never replaces a newer installed one (repaired)
           FixD13,        \* TRUE = a follower flushes its log before every successful append reply (repaired)
           FixD5,         \* TRUE = onSnapshotTaken keeps leader.removeLTE >= log.PrevIndex (repaired)
@@ -642,7 +643,9 @@ OnInstallSnapRequest(s, req) ==
        \*  installing anything; the code as found discarded the committed entries that follow the snapshot index)
        IF FixD22 /\ req.idx <= s1.commit THEN [s |-> s1, result |-> "success"]
        ELSE IF HasIdx(s2, req.idx) /\ TermAt(s2, req.idx) = req.sterm
-       THEN [s |-> CompactLog(s2, req.idx), result |-> "success"]
+       THEN \* (FixD23: the log is kept as it is; the code as found compacted it up to the snapshot index although the
+            \*  state machine had not applied those entries and is not restored on this path)
+            [s |-> IF FixD23 THEN s2 ELSE CompactLog(s2, req.idx), result |-> "success"]
        ELSE LET s3 == [s2 EXCEPT !.log = << >>, !.logPrev = req.idx, !.bnds = {req.idx}, !.synced = req.idx,
                                  !.fsmQ = Append(@, [kind |-> "restore"]), !.commit = req.idx]
             IN [s |-> CommitConfig(ChangeConfig(s3, req.cfg)), result |-> "success"]
